@@ -3,6 +3,7 @@ import PycsepVerif.Model.DecimalText
 import PycsepVerif.Model.ForecastText
 import PycsepVerif.Model.CatalogText
 import PycsepVerif.Model.CatalogStream
+import PycsepVerif.Model.QuadLoaders
 import PycsepVerif.Drive.C11
 import PycsepVerif.Drive.C12
 /-!
@@ -21,6 +22,8 @@ Driver ops of the text layers of C11 / C12 (owner: C11/C12).  Strings travel as 
 `c12_csv H`        csv fields of one line → hex fields joined by `,` | `none`
 `c12_time H`       the time field → epoch ms | `none`
 `c12_fname H`      parse_filename → `hexname,us` | `none`
+`c11_qascii H` / `c11_qcsv H`   quadtree_ascii_loader / quadtree_csv_loader on the characters of the file →
+                   `key,key,…|mags|rates` (rationals) | `none`
 `c12_stream H`     the generator consumed lazily, quoted fields may span lines (`streamTextML`) → `<cats>#end` |
                    `<cats>#err:decreasing|malformed` with `<cats>` as after `ok:` of `c12_text` (`-` = none yielded)
 `c12_csvml H`      csv records of a whole text (`csvRecordsML`) → records joined by `;`, fields hex joined by `,`, `empty`
@@ -81,7 +84,17 @@ def showCatsH (cs : List AsciiCatalogs.Catalog) : String :=
   if cs.isEmpty then "-" else ";".intercalate (cs.map (fun c =>
       Drive.C12.showO toString c.id ++ "|" ++ ",".intercalate (c.events.map showEvH)))
 
+def showQ : Option ForecastFile.QForecast → String
+  | none => "none"
+  | some q => "|".intercalate [",".intercalate q.keys, showList showRat q.mags, showList showRat q.base]
+
 def handle : List String → Option String
+  | ["c11_qascii", h] => some (match unhex h with
+      | some t => showQ (ForecastFile.loadQuadAscii t)
+      | none => "bad-op")
+  | ["c11_qcsv", h] => some (match unhex h with
+      | some t => showQ (ForecastFile.loadQuadCsv t)
+      | none => "bad-op")
   | ["c12_stream", h] => some (match unhex h with
       | some t => (match AsciiCatalogs.streamTextML t with
         | (cs, none) => showCatsH cs ++ "#end"
